@@ -91,6 +91,8 @@ impl ConnBuffer {
 
     pub fn read<R: std::io::BufRead>(&mut self, mut reader: R) -> SudachiResult<()> {
         self.ctx.set_line(0);
+        // a call that failed leaves the line it failed on behind
+        self.line.clear();
         loop {
             let nread = reader.read_line(&mut self.line)?;
             if nread == 0 {
